@@ -604,6 +604,7 @@ type runner struct {
 	backfillR      uint32
 	backfillHeld   []int  // validators that stayed silent, one per backfilling proposal
 	backfillTarget string
+	lastOneVoter   int   // index of the validator of the latest scripted "precommit-one"
 	forceWide      bool  // set while a scripted proposal is built: announce a wide next validator set
 	forceBackfill  []int // set while a scripted proposal is built: keep every entry of the commit proof, add these signers
 
@@ -789,17 +790,63 @@ func (rn *runner) doEnter(h uint64, r uint32) {
 	}
 }
 
+// kernelTurns: the number of times the kernel is made to pass through its select loop (one answered view request
+// each) while a consumer is waiting on its output channel, before the consumer concludes that nothing is offered.
+// Every turn in which the kernel has something for that consumer delivers it with probability >= 1/2 (Go's select
+// picks among the ready cases at random), and the turn after the view request is answered delivers it for certain;
+// no wall-clock assumption is made about how fast a loaded machine schedules the kernel goroutine.
+const kernelTurns = 12
+
+// awaitOut waits for one value the kernel offers on a consumer channel: a receiver goroutine stays ready while the
+// kernel is driven through its loop by barriers; only after that (and a short grace) the read counts as empty.
+func awaitOut[T any](rn *runner, ch <-chan T) (T, bool) {
+	res := make(chan T, 1)
+	stop := make(chan struct{})
+	fin := make(chan struct{})
+	go func() {
+		defer close(fin)
+		select {
+		case u := <-ch:
+			res <- u
+		case <-stop:
+		}
+	}()
+	var zero T
+	for i := 0; i < kernelTurns; i++ {
+		rn.barrier()
+		select {
+		case u := <-res:
+			<-fin
+			return u, true
+		default:
+		}
+	}
+	select {
+	case u := <-res:
+		<-fin
+		return u, true
+	case <-time.After(40 * time.Millisecond):
+	}
+	close(stop)
+	<-fin
+	select {
+	case u := <-res:
+		return u, true
+	default:
+	}
+	return zero, false
+}
+
 func (rn *runner) doSMRead() {
 	rn.barrier()
-	select {
-	case v := <-rn.smOut:
+	if v, ok := awaitOut(rn, rn.smOut); ok {
 		var vrv *tmconsensus.VersionedRoundView
 		if v.VRV.Height > 0 {
 			vrv = &v.VRV
 		}
 		rn.io = TL([]string{TN(3), rn.trOView(vrv), rn.trOView(v.JumpAheadRoundView)})
 		rn.stats["sm_read_value"]++
-	case <-time.After(40 * time.Millisecond):
+	} else {
 		rn.io = TL([]string{TN(5)})
 		rn.stats["sm_read_empty"]++
 	}
@@ -811,17 +858,16 @@ func (rn *runner) doGRead() {
 	rn.barrier()
 	got := false
 	for tries := 0; tries < 4 && !got; tries++ {
-		select {
-		case u := <-rn.gOut:
-			if u.Committing == nil && u.Voting == nil && u.NextRound == nil && u.NilVotedRound == nil {
-				continue // round-session changes only: not modelled
-			}
-			rn.io = TL([]string{TN(4), rn.trOView(u.Committing), rn.trOView(u.Voting), rn.trOView(u.NextRound), rn.trOView(u.NilVotedRound)})
-			rn.stats["gossip_read_value"]++
-			got = true
-		case <-time.After(40 * time.Millisecond):
-			tries = 4
+		u, ok := awaitOut(rn, rn.gOut)
+		if !ok {
+			break
 		}
+		if u.Committing == nil && u.Voting == nil && u.NextRound == nil && u.NilVotedRound == nil {
+			continue // round-session changes only: not modelled
+		}
+		rn.io = TL([]string{TN(4), rn.trOView(u.Committing), rn.trOView(u.Voting), rn.trOView(u.NextRound), rn.trOView(u.NilVotedRound)})
+		rn.stats["gossip_read_value"]++
+		got = true
 	}
 	if !got {
 		rn.io = TL([]string{TN(6)})
@@ -837,7 +883,10 @@ func (rn *runner) replay(v, c *tmconsensus.VersionedRoundView) {
 	H, R := v.Height, v.Round
 	variant := 0
 	if w.r.chance(1, 2) {
-		variant = 1 + w.r.below(10)
+		variant = 1 + w.r.below(11)
+		if variant == 11 {
+			variant = 13
+		}
 	}
 	if rn.hazards && R > 0 && w.r.chance(1, 3) {
 		variant = 11
@@ -859,6 +908,16 @@ func (rn *runner) replay(v, c *tmconsensus.VersionedRoundView) {
 	}
 	// variant 10: a header the mirror already holds as a proposed header of this height (this or an earlier round)
 	var known *tmconsensus.ProposedHeader
+	if variant == 12 {
+		// a header of the CURRENT voting round that the view already holds precommits for, replayed with a commit proof
+		// below the majority that adds precommits the view does not hold: refused, and nothing of it may stay behind
+		if phs := rn.knownPHs[hr{H, R}]; len(phs) > 0 {
+			known = &phs[len(phs)-1]
+			rn.stats["replay_of_voted_header_minority"]++
+		} else {
+			return
+		}
+	}
 	if variant == 10 {
 		var cands []tmconsensus.ProposedHeader
 		for rr := uint32(0); rr <= R; rr++ {
@@ -884,6 +943,7 @@ func (rn *runner) replay(v, c *tmconsensus.VersionedRoundView) {
 	}
 	hashOK := true
 	curHdr, nextHdr := cur, next
+	signer := cur // whose keys sign the commit proof
 	hdCoq := ""
 	if known != nil {
 		hd = known.Header
@@ -905,6 +965,21 @@ func (rn *runner) replay(v, c *tmconsensus.VersionedRoundView) {
 			curHdr = w.forge(cur)
 			hd.ValidatorSet = curHdr.vs
 		}
+	case 13:
+		// the header's own validator set keeps Validators and both hashes (hence the genuine block hash) but carries a
+		// substituted PubKeys slice, and the commit proof is signed by exactly those substituted keys: a node that builds
+		// the round's proofs from the header's PubKeys would accept a quorum of signatures no validator made
+		sub := make([]int, len(cur.keys))
+		pks := make([]gcrypto.PubKey, len(cur.keys))
+		for i, k := range cur.keys {
+			sub[i] = (k + 1 + w.r.below(poolSize-1)) % poolSize
+			pks[i] = w.pool[sub[i]].Val.PubKey
+		}
+		fvs := tmconsensus.ValidatorSet{Validators: cur.vs.Validators, PubKeys: pks, PubKeyHash: cur.vs.PubKeyHash, VotePowerHash: cur.vs.VotePowerHash}
+		curHdr = valset{keys: cur.keys, pows: cur.pows, vs: fvs, ok: false}
+		hd.ValidatorSet = fvs
+		signer = valset{keys: sub, pows: cur.pows, vs: fvs, ok: false}
+		rn.stats["replay_substituted_pubkeys"]++
 	}
 	// the commit proof: precommits for the header in round r
 	idxs := allIdx(len(cur.keys))
@@ -917,9 +992,14 @@ func (rn *runner) replay(v, c *tmconsensus.VersionedRoundView) {
 		flaw = 40 // some invalid signatures
 	case 9:
 		target = "another-block" // no entry for the header itself
+	case 12:
+		idxs = minorityIdx(cur.pows, rn.lastOneVoter)
+		if len(idxs) == 0 {
+			return
+		}
 	}
 	proof := tmconsensus.CommitProof{Round: r, PubKeyHash: string(cur.vs.PubKeyHash),
-		Proofs: map[string][]gcrypto.SparseSignature{target: rn.mkSigsNoKid(cur, kindPrecommit, h, r, target, idxs, flaw)}}
+		Proofs: map[string][]gcrypto.SparseSignature{target: rn.mkSigsNoKid(signer, kindPrecommit, h, r, target, idxs, flaw)}}
 	if variant == 0 && w.r.chance(1, 3) {
 		proof.Proofs[""] = rn.mkSigsNoKid(cur, kindPrecommit, h, r, "", rn.randSubset(len(cur.keys), 1), 0)
 	}
@@ -1307,7 +1387,7 @@ func (rn *runner) step() {
 		rn.script = nil
 	} else if rn.pendingCrash < 0 && w.r.chance(1, templateEvery()) {
 		// interleaving templates; with consumers the races between the state machine and view shifts come first
-		y := w.r.below(8)
+		y := w.r.below(9)
 		if y >= 6 {
 			y += 2
 		}
@@ -1351,6 +1431,11 @@ func (rn *runner) step() {
 			// precommit to the committing view (backfill) while the other adds nothing
 			rn.stats["script_backfill_two_targets"]++
 			rn.script = []string{"propose-wide", "precommit-all", "propose-wide", "precommit-all", "propose", "precommit-nil-one", "precommit-most", "propose-backfill", "gread", "propose-backfill", "smread", "gread"}
+		case y == 10 && replayMode:
+			// one validator's precommit for a proposal is in the view; the same header comes back as a replayed header
+			// whose commit proof is below the majority but carries precommits the view does not hold
+			rn.stats["script_refused_replay_of_voted_header"]++
+			rn.script = []string{"propose", "precommit-one", "replay-voted-minority", "gread", "smread", "precommit-one"}
 		case y == 9:
 			// a fork attempt by a Byzantine majority: a block is committed by a bare quorum, then EVERY validator's
 			// precommit for another block of that height and round arrives late (the committing view now holds more
@@ -1926,6 +2011,33 @@ func backfillPlan(pows []uint64) (nilIdx int, silent, rest []int, ok bool) {
 	return nilIdx, silent, rest, true
 }
 
+// minorityIdx: validators (lowest power first) whose total power stays below the Byzantine majority, among them at
+// least one other than `except`; nil if there is no such set.
+func minorityIdx(pows []uint64, except int) []int {
+	var total uint64
+	for _, p := range pows {
+		total += p
+	}
+	if total == 0 {
+		return nil
+	}
+	maj := tmconsensus.ByzantineMajority(total)
+	var out []int
+	var sum uint64
+	other := false
+	for _, i := range lowestIdx(pows, len(pows)) {
+		if sum+pows[i] < maj {
+			sum += pows[i]
+			out = append(out, i)
+			other = other || i != except
+		}
+	}
+	if !other {
+		return nil
+	}
+	return out
+}
+
 // lowestIdx returns the indices of the k smallest powers (ties: lower index first).
 func lowestIdx(pows []uint64, k int) []int {
 	idx := make([]int, len(pows))
@@ -1970,8 +2082,12 @@ func (rn *runner) scripted(op string, v, c *tmconsensus.VersionedRoundView) bool
 		rn.doEnter(H, R)
 	case "vote-here":
 		rn.doVotes(kindPrevote, H, R, pkh, []voteEntry{{target, rn.mkSigs(cur, kindPrevote, H, R, target, rn.randSubset(n, 1), 0)}})
+	case "replay-voted-minority":
+		rn.forceReplay = 12
+		rn.replay(v, c)
 	case "precommit-one":
 		i := rn.w.r.below(max(n, 1))
+		rn.lastOneVoter = i
 		rn.doVotes(kindPrecommit, H, R, pkh, []voteEntry{{target, rn.mkSigs(cur, kindPrecommit, H, R, target, []int{i}, 0)}})
 	case "precommit-one-for-all":
 		i0 := rn.w.r.below(max(n, 1))
@@ -2188,9 +2304,21 @@ func (rn *runner) proposal(v, c *tmconsensus.VersionedRoundView, H uint64, R uin
 		next = w.wideValset()
 	} else if !haveNext {
 		next = w.randValset()
-		if w.r.chance(1, 3) {
+		switch w.r.below(6) {
+		case 0, 1:
 			next = cur // unchanged set
 			next.ok = true
+		case 2:
+			// the same validators with other powers: the key hash stays, only the vote power hash changes
+			pows := make([]uint64, len(cur.pows))
+			for i, p := range cur.pows {
+				pows[i] = p
+				if w.r.chance(2, 3) {
+					pows[i] = uint64(1 + w.r.below(1000))
+				}
+			}
+			next = w.mkValset(cur.keys, pows)
+			rn.stats["next_valset_same_keys_other_powers"]++
 		}
 	}
 	if variant == 8 {
